@@ -18,6 +18,7 @@
 package babe
 
 import (
+	"math"
 	"encoding/binary"
 	"encoding/json"
 	"errors"
@@ -156,11 +157,57 @@ func vbvNewWorld(t *testing.T, rng *rand.Rand, n int, c1, c2 uint64) *vbvWorld {
 	if err != nil {
 		t.Fatalf("VERIF-INFRA threshold: %v", err)
 	}
-	w.thrU = thr
-	w.thr = new(big.Int).Lsh(new(big.Int).SetUint64(thr.Upper), 64)
-	w.thr.Add(w.thr, new(big.Int).SetUint64(thr.Lower))
+	w.thrU = thr // what the node hands to its own lottery
+	// the `below` attribute is decided against the threshold of the property text, computed here with 512-bit
+	// arithmetic and without the code under test: 2^128 * (1 - (1 - c1/c2)^(1/n))
+	w.thr = vbvThreshold(c1, c2, n)
 	w.parent = types.NewEmptyHeader()
 	return w
+}
+
+// vbvThreshold is floor(2^128 * (1 - (1 - c1/c2)^(1/n))), saturated to 2^128 - 1; Newton iteration on 512-bit floats.
+func vbvThreshold(c1, c2 uint64, n int) *big.Int {
+	const prec = 512
+	max := new(big.Int).Sub(new(big.Int).Lsh(big.NewInt(1), 128), big.NewInt(1))
+	if c1 >= c2 || n == 0 {
+		return max
+	}
+	f := func(x float64) *big.Float { return new(big.Float).SetPrec(prec).SetFloat64(x) }
+	x := new(big.Float).SetPrec(prec).Quo(f(float64(c2-c1)), f(float64(c2))) // 1 - c
+	xf, _ := x.Float64()
+	r := f(math.Pow(xf, 1/float64(n)))
+	pow := func(b *big.Float, e int) *big.Float {
+		out := f(1)
+		for i := 0; i < e; i++ {
+			out.Mul(out, b)
+		}
+		return out
+	}
+	for i := 0; i < 12; i++ {
+		num := new(big.Float).SetPrec(prec).Sub(pow(r, n), x)
+		den := new(big.Float).SetPrec(prec).Mul(f(float64(n)), pow(r, n-1))
+		r.Sub(r, new(big.Float).SetPrec(prec).Quo(num, den))
+	}
+	p := new(big.Float).SetPrec(prec).Sub(f(1), r)
+	p.Mul(p, new(big.Float).SetPrec(prec).SetInt(new(big.Int).Lsh(big.NewInt(1), 128)))
+	out, _ := p.Int(nil)
+	if out.Cmp(max) > 0 {
+		return max
+	}
+	return out
+}
+
+// vbvThresholdAgrees: the code's threshold for (c1, c2, n) lies within 2^82 of the property's (f64 rounding, see C25)
+func vbvThresholdAgrees(c1, c2 uint64, n int) (ok bool, got, want *big.Int) {
+	thr, err := CalculateThreshold(c1, c2, n)
+	if err != nil {
+		return false, nil, nil
+	}
+	got = new(big.Int).Lsh(new(big.Int).SetUint64(thr.Upper), 64)
+	got.Add(got, new(big.Int).SetUint64(thr.Lower))
+	want = vbvThreshold(c1, c2, n)
+	d := new(big.Int).Sub(got, want)
+	return d.Abs(d).Cmp(new(big.Int).Lsh(big.NewInt(1), 82)) <= 0, got, want
 }
 
 func (w *vbvWorld) vrf(t *testing.T, key int, slot uint64) vbvVrf {
@@ -545,7 +592,9 @@ func TestVerifBabeVerify(t *testing.T) {
 		n      int
 		c1, c2 uint64
 	}
-	specs := []wspec{{3, 1, 2}, {2, 1, 1}}
+	// the same c with different authority counts, and a saturated threshold in between: the epoch threshold is a
+	// function of (c, n) alone, whatever was computed before
+	specs := []wspec{{3, 1, 2}, {2, 1, 1}, {2, 1, 2}}
 	reps := vEnvInt("VERIF_BABE_WORLDS", 0)
 	for i := 0; i < reps; i++ {
 		c2 := uint64(2 + rng.Intn(6))
@@ -557,6 +606,21 @@ func TestVerifBabeVerify(t *testing.T) {
 	var worlds []*vbvWorld
 	for _, s := range specs {
 		worlds = append(worlds, vbvNewWorld(t, rng, s.n, s.c1, s.c2))
+	}
+	// after all worlds exist (every (c, n) has been asked once, in this order), and again in reverse order
+	for pass := 0; pass < 2; pass++ {
+		for i := range specs {
+			s := specs[i]
+			if pass == 1 {
+				s = specs[len(specs)-1-i]
+			}
+			res.Case("threshold", fmt.Sprintf("%d|%d|%d", s.n, s.c1, s.c2))
+			res.Cmp()
+			if ok, got, want := vbvThresholdAgrees(s.c1, s.c2, s.n); !ok {
+				res.Fail(-1, pass, "threshold", "CalculateThreshold", fmt.Sprint(want), fmt.Sprint(got),
+					"C24/threshold/not-a-function-of-c-and-n", map[string]any{"n": s.n, "c1": s.c1, "c2": s.c2, "pass": pass})
+			}
+		}
 	}
 
 	unrealised := 0
